@@ -34,6 +34,10 @@ func checkC19(c *Ctx) {
 	for _, m := range locks.FindMonitors(c.P, c.Locks(), c.Effects()) {
 		c.closedEndsWait(m)
 	}
+	// an expiry is an abnormal end: the will published is that of the current connection (a will flag
+	// cleared by an earlier DISCONNECT must not survive a session resume)
+	c.sessionConnectAndWill()
+	c.drainBeforeEOF()
 }
 
 // deadlineReader: the reader the receiver pumps from re-arms the deadline before every read.
